@@ -86,7 +86,8 @@ def run(ctx, B):
             Zl = [int(x) for x in f[3].split(",")]; mf = [xrl.hd(x) for x in f[4].split(",")]; dens = xrl.hd(f[2])
             if int(f[1]) != len(Zl) or Zl != sorted(set(Zl)) or any(z < 1 or z > 120 for z in Zl):
                 V("nist|%s|elements" % names[k], "elements not strictly ascending / count mismatch: %r" % (Zl,))
-            if any(not (m > 0) for m in mf) or abs(sum(mf) - 1) > 1e-5:
+            # the table carries 6 decimals: n honest fractions sum to 1 within n * 0.5e-6 (a typo in the last digits of one fraction exceeds that budget)
+            if any(not (m > 0) for m in mf) or abs(sum(mf) - 1) > len(mf) * 0.5e-6 * 1.001 + 1e-12:
                 V("nist|%s|fractions" % names[k], "mass fractions %r sum to %r" % (mf, sum(mf)))
             if not dens > 0:
                 V("nist|%s|density" % names[k], "density %r" % dens)
